@@ -23,8 +23,8 @@ impl Check for C10 {
     }
     fn runs(&self, tier: Tier) -> u64 {
         match tier {
-            Tier::Quick => 6_000,
-            Tier::Thorough => 400_000,
+            Tier::Quick => 30_000,
+            Tier::Thorough => 1_500_000,
         }
     }
     fn run(&self, tape: &mut Tape, ctx: &RunCtx) -> RunOut {
